@@ -61,15 +61,27 @@ var (
 )
 
 func startProbe(env *runner.Env) (*probeProc, error) {
+	return startProbeIn(env.Scratch, "probe.status", env.RepoDir, env.Tier, false)
+}
+
+// startProbeIn starts a probe process whose status file is dir/statusName.
+// bare: the probe does not load the seeds; it only serves the calls of setup
+// (guard.go) and limits its own address space (it may be started by the
+// parent, which has no limit).
+func startProbeIn(dir, statusName, repoDir, tier string, bare bool) (*probeProc, error) {
 	exe, err := os.Executable()
 	if err != nil {
 		return nil, err
 	}
-	status := filepath.Join(env.Scratch, "probe.status")
+	status := filepath.Join(dir, statusName)
 	if err := os.WriteFile(status, make([]byte, statusFileLen), 0o644); err != nil {
 		return nil, err
 	}
-	cmd := exec.Command(exe, "--c16-probe", status, env.RepoDir, env.Tier)
+	args := []string{"--c16-probe", status, repoDir, tier}
+	if bare {
+		args = append(args, "bare")
+	}
+	cmd := exec.Command(exe, args...)
 	cmd.Env = append(os.Environ(), "GOMAXPROCS=2", "GOTRACEBACK=all")
 	p := &probeProc{cmd: cmd, status: status, stderr: &lockedBuf{}}
 	cmd.Stderr = p.stderr
